@@ -117,17 +117,17 @@ RETURN_CLASS = {
     # variant -> class, per return category of the kind.  Absent = this generator never writes that pair.
     "value": {"lit": "ok", "a1": "ok", "a1p": "ok", "lvc": "ok", "gv": "ok", "str": "nonconv", "nul": "nonconv",
               "wild": "wild", "typed": "typed", "duck": "duck"},
-    "ref":   {"a1": "ok", "gv": "ok", "sref": "ok", "lit": "nonref", "lvc": "constref", "gc": "constref",
+    "ref":   {"a1": "ok", "gv": "ok", "pgv": "ok", "sref": "ok", "lit": "nonref", "lvc": "constref", "gc": "constref",
               "wild": "wild", "duck": "duck"},
-    "cref":  {"a1": "ok", "gv": "ok", "gc": "ok"},
+    "cref":  {"a1": "ok", "gv": "ok", "pgv": "ok", "gc": "ok"},     # pgv: a parenthesised non-const lvalue, i.e. an int& expression
     "ptr":   {"a1": "ok", "nul": "ok", "gvp": "ok", "gcp": "constptr", "lvp": "constptr", "lit": "nonconv"},
     "void":  {"lit": "ok", "a1": "ok"},     # class irrelevant: R03 fires, the type rows are switched off for void
     "coro":  {"lit": "ok"},                 # class irrelevant: R02 fires, every other RETURN row is switched off
 }
 LR_RETURN_CLASS = {
     "value": {"lv": "ok", "a1": "ok"},
-    "ref":   {"lv": "ok", "lvref": "ok", "a1": "ok"},
-    "cref":  {"lv": "ok", "a1": "ok"},
+    "ref":   {"lv": "ok", "plv": "ok", "lvref": "ok", "a1": "ok"},
+    "cref":  {"lv": "ok", "plv": "ok", "a1": "ok"},       # plv: LR_RETURN((lv)), the CookBook's way to return a reference to a local
     "ptr":   {"lvp": "ok", "a1": "ok"},
     "void":  {"lv": "ok"},
     "coro":  {"lv": "ok"},
